@@ -4,6 +4,7 @@
 //! For every case it prints `BEGIN <id>` before running and `RES <id> <payload>` after, each
 //! flushed, so that a supervising process can attribute a hang or an abort to a case.
 
+mod bits;
 mod expr;
 mod ops;
 mod util;
@@ -32,6 +33,7 @@ fn main() {
         }
         let res = std::panic::catch_unwind(|| match engine.as_str() {
             "ops" => ops::run(&toks),
+            "bits" => bits::run(&toks),
             other => format!("ERR unknown-engine {}", other),
         });
         let payload = match res {
